@@ -221,10 +221,22 @@ Proof.
   split; [exact Hdim|]. split; [exact H0|]. split; [exact H1 | exact Hang].
 Qed.
 
-Theorem gstep_inv m op m' : geo_inv m -> gstep O m op = Some m' ->
-  geo_inv m' /\ g_dim m' = g_dim m /\ g_latlon m' = g_latlon m /\ g_temporal m' = g_temporal m /\ g_geo_scale m' = g_geo_scale m.
+Lemma set_len_anis_scalar_id dim l anis l' a : 1 <= dim -> length anis = dim - 1 ->
+  set_len_anis O dim [l] anis false = Some (l', a) -> a = anis /\ l' = l.
 Proof.
-  intros Hi H. destruct op as [ls|an|ang]; cbn [gstep] in H.
+  intros Hd Ha E. unfold set_len_anis in E.
+  assert (Hf : forall d, 1 <= d -> firstn d [l] = [l]) by (intros [|d] ?; [lia | destruct d; reflexivity]).
+  rewrite (Hf _ Hd) in E. cbn [length Nat.eqb aget nth] in E.
+  assert (Hs : set_anis O dim anis = anis).
+  { unfold set_anis. rewrite <- Ha, firstn_all, Nat.sub_diag. reflexivity. }
+  rewrite Hs in E. destruct (forallb _ _); [|discriminate]. inversion E; subst. auto.
+Qed.
+
+Theorem gstep_inv m op m' : geo_inv m -> gstep O m op = Some m' ->
+  geo_inv m' /\ g_latlon m' = g_latlon m /\ g_temporal m' = g_temporal m /\ g_geo_scale m' = g_geo_scale m /\
+  g_dim m' = match op with OpDim d => if g_latlon m then g_dim m else d | _ => g_dim m end.
+Proof.
+  intros Hi H. destruct op as [ls|an|ang|d]; cbn [gstep] in H.
   - destruct (set_len_anis O (g_dim m) ls (g_anis m) (g_latlon m)) as [[l a]|] eqn:E; [|discriminate].
     inversion H; subst; clear H. split; [eapply len_anis_step_inv; eauto|]. cbn. auto.
   - destruct (set_len_anis O (g_dim m) [g_len_scale m] an (g_latlon m)) as [[l a]|] eqn:E; [|discriminate].
@@ -235,17 +247,56 @@ Proof.
     + intros Hl. destruct (Hll Hl) as (Hdim & H0 & H1 & _). rewrite Hl.
       split; [exact Hdim|]. split; [exact H0|]. split; [exact H1 | reflexivity].
     + intros Hl Ht k Hk. rewrite Hl, Ht. now apply set_model_angles_temporal_zero.
+  - destruct Hi as (Hd & Ha & Hg & Hll & Htt).
+    set (d' := if g_latlon m then 3 + b2n (g_temporal m) else d) in *.
+    destruct (Nat.ltb_spec d' 1) as [|Hd']; [discriminate|].
+    destruct (set_len_anis O d' [g_len_scale m] (g_anis m) false) as [[l a]|] eqn:E; [|discriminate].
+    inversion H; subst; clear H. cbn [g_dim g_latlon g_temporal g_anis g_angles g_geo_scale].
+    split.
+    + unfold geo_inv. cbn [g_dim g_latlon g_temporal g_anis g_angles].
+      split; [exact Hd'|]. split; [eapply set_len_anis_length; eauto|]. split; [apply set_model_angles_length|]. split.
+      * intros Hl. destruct (Hll Hl) as (Hdim & H0 & H1 & _).
+        assert (Ed : d' = g_dim m) by (unfold d'; rewrite Hl; lia).
+        rewrite Ed in E. destruct (set_len_anis_scalar_id (g_dim m) _ _ _ _ Hd Ha E) as [-> _].
+        rewrite Hl. split; [unfold d'; rewrite Hl; reflexivity|]. split; [exact H0|]. split; [exact H1 | reflexivity].
+      * intros Hl Ht k Hk. rewrite Hl, Ht. now apply set_model_angles_temporal_zero.
+    + repeat (split; [reflexivity|]). unfold d'. destruct (g_latlon m) eqn:Hl; [|reflexivity].
+      destruct (Hll eq_refl) as (Hdim & _). lia.
 Qed.
 
 Theorem gsteps_inv ops : forall m m', geo_inv m -> gsteps O m ops = Some m' ->
-  geo_inv m' /\ g_dim m' = g_dim m /\ g_latlon m' = g_latlon m /\ g_temporal m' = g_temporal m /\ g_geo_scale m' = g_geo_scale m.
+  geo_inv m' /\ g_latlon m' = g_latlon m /\ g_temporal m' = g_temporal m /\ g_geo_scale m' = g_geo_scale m.
 Proof.
   induction ops as [|op r IH]; intros m m' Hi H; cbn [gsteps] in H.
   - inversion H; subst. auto.
   - destruct (gstep O m op) as [m1|] eqn:E; [|discriminate].
-    destruct (gstep_inv m op m1 Hi E) as (Hi1 & E1 & E2 & E3 & E4).
-    destruct (IH m1 m' Hi1 H) as (Hi' & F1 & F2 & F3 & F4).
-    rewrite F1, F2, F3, F4. auto.
+    destruct (gstep_inv m op m1 Hi E) as (Hi1 & E2 & E3 & E4 & _).
+    destruct (IH m1 m' Hi1 H) as (Hi' & F2 & F3 & F4).
+    rewrite F2, F3, F4. auto.
+Qed.
+
+(* normal form of the angles of a temporal model: re-normalising stored angles that satisfy the invariant is the identity *)
+Lemma all_zero_repeat (l : list T) : (forall k, aget zero l k = zero) -> l = repeat zero (length l).
+Proof.
+  intros H. apply (list_ext zero); [now rewrite repeat_length|].
+  intros i _. rewrite H. symmetry. apply aget_repeat.
+Qed.
+
+Lemma nth_skipn_T n (l : list T) k : aget zero (skipn n l) k = aget zero l (n + k).
+Proof.
+  unfold aget. revert l. induction n as [|n IH]; intros l; [reflexivity|].
+  destruct l as [|x l]; [destruct k; reflexivity|]. cbn [skipn Nat.add nth]. apply IH.
+Qed.
+
+Lemma temporal_angles_normal_form dim (l : list T) : length l = no_of_angles dim ->
+  (forall k, no_of_angles (dim - 1) <= k -> aget zero l k = zero) ->
+  set_model_angles O dim l false true = l.
+Proof.
+  intros Hl Hz. unfold set_model_angles. rewrite (set_angles_idem dim l Hl).
+  rewrite <- (firstn_skipn (no_of_angles (dim - 1)) l) at 3. f_equal.
+  rewrite (all_zero_repeat (skipn (no_of_angles (dim - 1)) l)).
+  - rewrite skipn_length. reflexivity.
+  - intros k. rewrite nth_skipn_T. apply Hz. lia.
 Qed.
 
 (* assigning a scalar len_scale keeps every ratio, in particular the time ratio of a lat-lon + temporal
@@ -516,6 +567,22 @@ Proof.
   rewrite (sumn_single dim _ (dim - 1)%nat) by
     (try lia; intros k Hk Hne; cbn [nmul Rops_with]; rewrite (proj2 (E1 k ltac:(lia))); ring).
   cbn [nmul Rops_with n0]. rewrite E2. unfold Rdiv. ring.
+Qed.
+
+(* the same for the STATE of a metric temporal model after any history of setters (len_scale, anis, angles, dim up or down):
+   the invariant keeps the stored angles in the normal form of set_model_angles *)
+Theorem time_axis_of_invariant_state (m : geomodel (T := R)) (p : list R) :
+  geo_inv RO m -> g_latlon m = false -> g_temporal m = true -> (2 <= g_dim m)%nat ->
+  let M := matrix_isometrize RO (g_dim m) (g_angles m) (g_anis m) in
+  let tau := (g_dim m - 1)%nat in
+  (forall i, (i < tau)%nat -> ent RO M i tau = 0 /\ ent RO M tau i = 0) /\
+  ent RO M tau tau = 1 / last (g_anis m) 0 /\
+  aget 0 (isometrize RO m p) tau = aget 0 p tau / last (g_anis m) 0.
+Proof.
+  intros (Hd & Ha & Hg & Hll & Htt) Hl Ht H2. cbv zeta.
+  pose proof (temporal_angles_normal_form RO (g_dim m) (g_angles m) Hg (Htt Hl Ht)) as Hn.
+  unfold isometrize. rewrite Hl. rewrite <- Hn.
+  exact (isometrize_time_axis (g_dim m) (g_angles m) (g_anis m) p H2 Ha).
 Qed.
 
 (* ---------- rotations of the sphere and the kriging system *)
